@@ -168,8 +168,26 @@ func c11Bodies() []c11Body {
 			}
 			return strings.Join(p, "")
 		}})
+	// the loop body itself mentions neither forloop nor the loop variable: the trace lives in an included file
+	inc := `{% include "` + c11TraceFile + `" %}`
+	bodies = append(bodies, c11Body{"trace-via-include", func(t string) string { return inc },
+		func(items []string) string { return strings.Join(plain(items), "") }})
+	bodies = append(bodies, c11Body{"break-on-value-via-include",
+		func(t string) string { return "{% if x == 11 %}{% break %}{% endif %}" + inc },
+		func(items []string) string {
+			p := plain(items)
+			for i, it := range items {
+				if it == "11" {
+					p = p[:i]
+					break
+				}
+			}
+			return strings.Join(p, "")
+		}})
 	return bodies
 }
+
+const c11TraceFile = "c11_trace.liquid"
 
 var tdRe = regexp.MustCompile(`(?s)<td[^>]*>(.*?)</td>`)
 var trRe = regexp.MustCompile(`(?s)<tr[^>]*>(.*?)</tr>`)
@@ -778,7 +796,12 @@ func init() {
 			"cycle counters restart with every execution of a loop (per-loop state as described in the anchors); at most one ungrouped cycle tag per loop body",
 			"tablerow class names are not compared; tablerow has no else clause in this grammar",
 		},
-		Setup:    func(string) { c11.eng = liquid.NewEngine() },
+		Setup: func(string) {
+			c11.eng = liquid.NewEngine()
+			if _, err := c11.eng.ParseTemplateAndCache([]byte(c11Trace), c11TraceFile, 1); err != nil {
+				panic(explore.BaselineFailure{Msg: "harness: " + err.Error()})
+			}
+		},
 		Families: c11Families,
 		Bound: func(tier string) string {
 			if tier == "thorough" {
